@@ -113,11 +113,13 @@ HS == 1..NHint
 \* matrix assembled from the rows this module emits.
 CH == 4
 \* the repr twin of hint i (0: none)
-TwinIx == TLCEval([i \in HS |-> IF \E j \in HS : j # i /\ ReprOf(HintSeq[j]) = ReprOf(HintSeq[i])
-                               THEN CHOOSE j \in HS : j # i /\ ReprOf(HintSeq[j]) = ReprOf(HintSeq[i]) ELSE 0])
+ReprSeq == TLCEval([i \in HS |-> ReprOf(HintSeq[i])])
+Twinable == TLCEval({ i \in HS : ReprSeq[i] # HintSeq[i] })      \* hints that contain a named thing
+TwinIx == TLCEval([i \in HS |-> IF i \in Twinable /\ \E j \in Twinable : j # i /\ ReprSeq[j] = ReprSeq[i]
+                               THEN CHOOSE j \in Twinable : j # i /\ ReprSeq[j] = ReprSeq[i] ELSE 0])
 \* the key discipline of the wrapper cache: the hint itself (its == / hash: distinct abstract hints are unequal
 \* hints), or - spec mutant "repr_key" - its repr()
-Key(i) == IF "repr_key" \in Legacy THEN ReprOf(HintSeq[i]) ELSE HintSeq[i]
+Key(i) == IF "repr_key" \in Legacy THEN ReprSeq[i] ELSE HintSeq[i]
 NoW == [id |-> 0, h |-> 0]
 VARIABLES st, ia,
           row,                    \* [j |-> IsSub(Legacy, HintSeq[ia], HintSeq[j])]
